@@ -271,6 +271,8 @@ func createHandle(st *plan.Step) (obj interface{}, obs string) {
 			return nil, "path_new err=" + normErr(err)
 		}
 		return p, fmt.Sprintf("path_new ok root=%v sq=%v dq=%v str=%q", p.RootSelectorOnly(), p.UsedSingleQuotePathSelector(), p.UsedDoubleQuotePathSelector(), p.PathString())
+	case "val_new":
+		return newChain(st.N, st.V), fmt.Sprintf("val_new ok depth=%d", st.N)
 	case "query_new", "query_build":
 		q, err := buildQuery(st.S1, st.Op == "query_build")
 		if err != nil {
@@ -534,7 +536,15 @@ func (ss *sessState) doStep(i int, st *plan.Step) (obs string) {
 		}
 		return fmt.Sprintf("%s err=%q out=%s", st.Op, normErr(err), short(dst.Bytes()))
 	// ------------------------------------------------ path
-	case "path_new", "query_new", "query_build":
+	case "val_marshal":
+		c, _ := ss.handle(st, st.H).(*Chain)
+		if c == nil {
+			return "no-value"
+		}
+		opts, _, _ := encOpts(st)
+		b, err := gojson.MarshalContext(CtxWith(st.S1), c, opts...)
+		return fmt.Sprintf("val_marshal err=%q out=%s", normErr(err), short(b))
+	case "path_new", "query_new", "query_build", "val_new":
 		if st.Shared {
 			h := sharedTable[st.H]
 			if h == nil {
@@ -761,7 +771,7 @@ func execSessions(p *plan.Plan, res *plan.Result) {
 		states = append(states, &sessState{idx: i, s: s, handles: map[string]interface{}{}, prop: p.Prop})
 		for k := range s.Steps {
 			st := &s.Steps[k]
-			if st.Shared && (st.Op == "path_new" || st.Op == "query_new" || st.Op == "query_build") {
+			if st.Shared && (st.Op == "path_new" || st.Op == "query_new" || st.Op == "query_build" || st.Op == "val_new") {
 				if sharedTable[st.H] == nil {
 					obj, obs := createHandle(st)
 					sharedTable[st.H] = &sharedHandle{obj: obj, obs: obs}
